@@ -71,8 +71,16 @@ def oracle(case, tag, line):
     last = attempts[-1].split(",")[-1] if attempts and attempts[-1] else ""
     ok = last == "ok"
     alive = bool(re.match(r"^\d+\.\d+\.\d+$", last))
+    if f.get("lib") == "late":
+        bad.append(("unread-handshake-data-delayed", "data coalesced with the peer's handshake was only parsed after the peer sent another message (regression of /repo 5c4764e)"))
     if f.get("lib") == "bad":
         bad.append(("stream-misaligned", "post-handshake data sent by the peer was not decoded by the connection"))
+    if c["dir"] == "O" and len(attempts) >= 2:
+        sts = [int(x.split(".")[0]) for x in attempts[0].split(",") if re.match(r"^\d+\.\d+\.\d+$", x)]
+        if any((7 <= v <= 11) or v >= 13 for v in sts):
+            bad.append(("retried-after-peer-recognised", "outgoing attempt was retried although the peer's key / handshake had already been recognised"))
+        if len(attempts) >= 3:
+            bad.append(("retried-more-than-once", "outgoing attempt retried more than once"))
     if c["chk"] and alive:
         port = any(h in case for h in ("0000000309", "0000000209", "0000000109"))
         bad.append(("stall-after-split-port-message" if port else "stall",
@@ -151,6 +159,10 @@ def run(rep, tier, seed, replay):
         viol = oracle(case, tg, o)
         if m != norm(o):
             mism += 1
+            ml = re.findall(r"a\d+:(\S*)", m)
+            mlast = ml[-1].split(",")[-1] if ml and ml[-1] else ""
+            if not viol and mlast.startswith("f") and lastv == "ok":
+                viol = [("malformed-handshake-accepted", "a handshake the code as modelled rejects (%s) was accepted" % mlast)]
             if viol:
                 kl, text = viol[0]
                 rep.violation("model and implementation differ AND the property fails on the implementation: " + text,
